@@ -29,9 +29,8 @@ def teardown (w : World) (i : Nat) (s : Sess) : World × Bool :=
   let w := (w.setNode i { n with reg := n.reg.filter (fun x => x.id != s.id) }).emit s.conn .closed
   let w := { w with conns := w.conns.filter (fun (c : String × Nat) => c.1 != s.conn) }
   let w := s.topics.foldl (fun w t => w.subDelete i s.id t) w
-  match sessByClientID (w.node i).dist s.mount s.client with
-  | [] => (w, false)
-  | md :: _ => if md.id ≠ s.id then (w, true) else (w.sessDelete i s.id, false)
+  let cands := sessByClientID (w.node i).dist s.mount s.client
+  (if cands.any (fun md => md.id == s.id) then w.sessDelete i s.id else w, cands.any (fun md => md.id != s.id))
 
 theorem C13_shutdown_eq (w : World) (i : Nat) (sid : String) (s : Sess) (hs : (w.node i).sess sid = some s)
     (hid : s.id = sid) :
@@ -45,14 +44,7 @@ theorem C13_shutdown_eq (w : World) (i : Nat) (sid : String) (s : Sess) (hs : (w
   subst hid
   unfold World.shutdownSession teardown
   simp only [hs]
-  generalize List.foldl _ _ s.topics = W
-  cases sessByClientID (W.node i).dist s.mount s.client with
-  | nil => simp; rfl
-  | cons md rest =>
-    simp only []
-    by_cases h : md.id = s.id
-    · simp [h] <;> rfl
-    · simp [h]
+  rfl
 
 /-- everything `teardown` does after removing the session from the registry leaves `F` alone -/
 theorem C13_aux_teardown_frame {α : Type} {F : Node → α} (hF : NFrame F) (w : World) (i : Nat) (s : Sess) :
@@ -64,10 +56,8 @@ theorem C13_aux_teardown_frame {α : Type} {F : Node → α} (hF : NFrame F) (w 
       { W0.emit s.conn .closed with conns := (W0.emit s.conn .closed).conns.filter (fun (c : String × Nat) => c.1 != s.conn) }) :=
     WFrame.after (foldl_frame _ (fun w t => subDelete_frame hF w i s.id t) _ _) (WFrame.of_nodes F rfl)
   split
+  · exact WFrame.after (sessDelete_frame hF _ _ _) hW
   · exact hW
-  · split
-    · exact hW
-    · exact WFrame.after (sessDelete_frame hF _ _ _) hW
 
 /-- tearing down never appends to a message log -/
 theorem C13_teardown_no_append (w : World) (i : Nat) (s : Sess) (j : Nat) :
